@@ -27,6 +27,7 @@ class Program:
         self._src = {}
         self.compiled = {}       # id(fn) -> {bb: [stmts]}
         self.crates = []
+        self.static_allocs = {}
         self.crate_roots = {}
 
     # ---- loading
@@ -34,6 +35,8 @@ class Program:
         if root: self.crate_roots[crate] = root
         fns = parse_file(mirfile, crate)
         self.consts.update(const_table(mirfile))
+        for m in re.finditer(r"^alloc(\d+) \(static: ([\w:]+)", open(mirfile, errors="replace").read(), re.M):
+            self.static_allocs[(crate, m.group(1))] = m.group(2).split("::")[-1]
         self.crates.append((crate, mirfile, len(fns)))
         for f in fns:
             f.file = mirfile
@@ -551,6 +554,17 @@ class Interp:
                 m = re.search(r"\{(.+)\}$", t)
                 if m: return FnItem(m.group(1), strip_generics(m.group(1)))
             return Agg((), strip_generics(t).split("::")[-1])
+        m = re.match(r"\{alloc(\d+)(?:<imm>)?: (.+)\}$", c)
+        if m and (self.cur_crate, m.group(1)) in self.P.static_allocs and "Atomic" not in m.group(2):
+            # a named static: one cell per static, initialised on first use by running its initialiser
+            nm = self.P.static_allocs[(self.cur_crate, m.group(1))]
+            cell = self.W.statics.get("static:" + nm)
+            if cell is None:
+                f = self.P.lookup_kind(nm, True, self.cur_crate)
+                if f is None or not f.is_const: raise Unsupported("static " + nm)
+                cell = Cell(None); self.W.statics["static:" + nm] = cell
+                cell.v = self.run(f, [])
+            return Ptr(cell)
         m = re.match(r"\{alloc\d+(?:<imm>)?: (.+)\}$", c)
         if m:
             ty = m.group(1)
@@ -815,8 +829,11 @@ class Interp:
             tgt = callee[callee.rindex("parse::<") + 8:].rstrip(">")
             from .summaries_str import as_str, concrete_bytes
             b = concrete_bytes(as_str(self, args[0]))
-            if b is None: raise Unsupported("str::parse of symbolic text")
             w = INT_W.get(tgt)
+            if b is None and w is not None:
+                from .summaries_str import parse_int_sym
+                return parse_int_sym(self, as_str(self, args[0]), w, tgt[0] == "i")
+            if b is None: raise Unsupported("str::parse of symbolic text")
             if w is None: raise Unsupported("str::parse::<" + tgt + ">")
             E = lambda: err(Agg([Enum("IntErrorKind", "InvalidDigit", 1)], "ParseIntError"))
             t = b.decode(errors="replace")
@@ -847,6 +864,14 @@ class Interp:
                     kb = concrete_bytes(as_str(self, kv.f[0]))
                     if kb is None: raise Unsupported("map with symbolic keys")
                     m.d[kb] = Agg([kv.f[0], kv.f[1]], "tuple")
+                return m
+            if tgt.startswith(("HashSet<", "std::collections::HashSet<", "BTreeSet<")):
+                from .summaries_str import as_str, concrete_bytes
+                m = MapObj("HashSet")
+                for k in iter_to_list(self, args[0]):
+                    kb = concrete_bytes(as_str(self, k))
+                    if kb is None: raise Unsupported("set with symbolic keys")
+                    m.d[kb] = Agg([k, UNIT], "tuple")
                 return m
             if tgt.startswith(("Option<Vec<",)):
                 out = []
